@@ -103,7 +103,7 @@ Print Assumptions C32_push_then_pull_is_noop.
 
 Example C32_push_then_pull_nontrivial :
   let x := init_state [[]; [0]; [1]; [0]; [2; 3]] (Some 1) in
-  exists r x1, step (cfg_vfs true) x (Push 4 false) = (r, x1) /\ (forall e, r <> OE e) /\ tip x1 = Some 4 /\ x1 <> x.
+  exists r x1, step cfg_vfs x (Push 4 false) = (r, x1) /\ (forall e, r <> OE e) /\ tip x1 = Some 4 /\ x1 <> x.
 Proof.
   eexists. eexists. split; [vm_compute; reflexivity|]. split; [intros e; discriminate|].
   split; [reflexivity | discriminate].
@@ -123,32 +123,31 @@ Proof. exact locked_refuses. Qed.
 Print Assumptions C32_locked_refuses.
 
 (* BRZ_NO_SMART_VFS: the two VFS-only operations are refused and change nothing ... *)
-Theorem C32_novfs_refuses : forall x o rs,
-  locked x = false -> needs_vfs o = true -> exists e, step (cfg_novfs rs) x o = (OE e, x).
+Theorem C32_novfs_refuses : forall x o,
+  locked x = false -> needs_vfs o = true -> exists e, step cfg_novfs x o = (OE e, x).
 Proof. exact novfs_refuses. Qed.
 Print Assumptions C32_novfs_refuses.
 
 (* ... and a sequence without them does not depend on the VFS switch *)
-Theorem C32_novfs_agrees_guarded : forall rs ops x,
-  vfs_free ops = true -> run (cfg_novfs rs) x ops = run (cfg_vfs rs) x ops.
+Theorem C32_novfs_agrees_guarded : forall ops x,
+  vfs_free ops = true -> run cfg_novfs x ops = run cfg_vfs x ops.
 Proof. exact novfs_agrees_guarded. Qed.
 Print Assumptions C32_novfs_agrees_guarded.
 
 (* a server that lacks the post-1.12 verbs (client-side VFS fallbacks) is the same machine as the
-   current server, except for GetRev on a repository hit by the iter_revisions discrepancy *)
-Theorem C32_oldsrv_agrees_guarded : forall rs ops x,
-  old_quirk_free rs ops = true -> run (cfg_old rs) x ops = run (cfg_vfs rs) x ops.
-Proof. exact oldsrv_agrees_guarded. Qed.
-Print Assumptions C32_oldsrv_agrees_guarded.
+   current server -- unguarded since the repair of C32-iter-revisions-serializer (/repo 9cb1028) *)
+Theorem C32_oldsrv_agrees : forall ops x, run cfg_old x ops = run cfg_vfs x ops.
+Proof. exact oldsrv_agrees. Qed.
+Print Assumptions C32_oldsrv_agrees.
 
-(* the property at the level of the specification: outside the three recorded discrepancies
-   (candidate findings) the smart-server path and the local path are the same machine *)
-Theorem C32_modes_agree_guarded : forall rs ops x,
-  quirk_free rs ops = true -> run (cfg_vfs rs) x ops = run (cfg_local rs) x ops.
+(* the property at the level of the specification: outside the two recorded discrepancies
+   (known findings C32-parent-map-null, C32-genhist-absent-class) the smart-server path and the local path are the same machine *)
+Theorem C32_modes_agree_guarded : forall ops x,
+  quirk_free ops = true -> run cfg_vfs x ops = run cfg_local x ops.
 Proof. exact modes_agree_guarded. Qed.
 Print Assumptions C32_modes_agree_guarded.
 
 Theorem C32_modes_agree_refuted :
-  exists x ops, run (cfg_vfs true) x ops <> run (cfg_local true) x ops.
+  exists x ops, run cfg_vfs x ops <> run cfg_local x ops.
 Proof. exact modes_agree_refuted. Qed.
 Print Assumptions C32_modes_agree_refuted.
